@@ -7,6 +7,7 @@ import (
 	"fmt"
 	"go/types"
 	"math"
+	"unicode"
 	"strconv"
 	"strings"
 	"time"
@@ -36,6 +37,29 @@ func init() {
 		"strings.ToLower":                func(fr *frame, a []value) value { return fr.m.caseMap(a[0].(Str), false) },
 		"strings.Contains":               sumContains,
 		"strings.HasPrefix":              sumHasPrefix,
+		"strings.HasSuffix":              sumHasSuffix,
+		"strings.TrimPrefix":             sumTrimPrefix,
+		"strings.TrimSuffix":             sumTrimSuffix,
+		"strings.ContainsRune":           sumContainsRune,
+		"strings.EqualFold":              sumEqualFold,
+		"strings.Index":                  sumIndex,
+		"unicode/utf8.RuneCountInString": func(fr *frame, a []value) value { return mkInt(64, int64(len(a[0].(Str).R))) },
+		"unicode/utf8.RuneLen":           func(fr *frame, a []value) value { return fr.m.utf8Len(a[0].(*Term)) },
+		"unicode.ToUpper":                func(fr *frame, a []value) value { return fr.m.caseMapRune(a[0].(*Term), true) },
+		"unicode.ToLower":                func(fr *frame, a []value) value { return fr.m.caseMapRune(a[0].(*Term), false) },
+		"unicode.IsDigit": func(fr *frame, a []value) value {
+			r := a[0].(*Term)
+			if !r.IsConst() {
+				// ASCII digits only when the rune is known to be ASCII; otherwise not modelled
+				if b := fr.m.getBounds(r); !(r.Op == OVar && b[1] < 0x80) {
+					panic(unsupported("unicode.IsDigit on a symbolic non-ASCII rune"))
+				}
+				c := fr.m.ctx
+				return c.And(c.Ule(mkBV(32, '0'), r), c.Ule(r, mkBV(32, '9')))
+			}
+			v := rune(int32(r.U))
+			return mkBool(v >= '0' && v <= '9' || (v > 0x7f && unicodeIsDigit(v)))
+		},
 		"strings.Repeat":                 sumRepeat,
 		"strconv.Itoa":                   sumItoa,
 		"strconv.ParseInt":               sumParseInt,
@@ -684,4 +708,75 @@ func sumTimeSub(fr *frame, a []value) value {
 		return sat
 	}
 	return exact
+}
+
+func unicodeIsDigit(r rune) bool { return unicode.IsDigit(r) }
+
+func sumHasSuffix(fr *frame, a []value) value {
+	m := fr.m
+	s, p := a[0].(Str), a[1].(Str)
+	if len(p.R) > len(s.R) {
+		return falseT
+	}
+	return m.strEq(Str{R: s.R[len(s.R)-len(p.R):]}, p)
+}
+
+func sumTrimPrefix(fr *frame, a []value) value {
+	m := fr.m
+	s, p := a[0].(Str), a[1].(Str)
+	if len(p.R) > len(s.R) {
+		return s
+	}
+	if m.branch(m.strEq(Str{R: s.R[:len(p.R)]}, p)) {
+		return Str{R: s.R[len(p.R):]}
+	}
+	return s
+}
+
+func sumTrimSuffix(fr *frame, a []value) value {
+	m := fr.m
+	s, p := a[0].(Str), a[1].(Str)
+	if len(p.R) > len(s.R) {
+		return s
+	}
+	if m.branch(m.strEq(Str{R: s.R[len(s.R)-len(p.R):]}, p)) {
+		return Str{R: s.R[:len(s.R)-len(p.R)]}
+	}
+	return s
+}
+
+func sumContainsRune(fr *frame, a []value) value {
+	m := fr.m
+	c := m.ctx
+	s, r := a[0].(Str), a[1].(*Term)
+	m.needConcreteStr(s, "strings.ContainsRune")
+	var res *Term = falseT
+	for _, x := range s.R {
+		res = c.Or(res, c.Eq(x, r))
+	}
+	return res
+}
+
+func sumEqualFold(fr *frame, a []value) value {
+	m := fr.m
+	x, y := a[0].(Str), a[1].(Str)
+	// simple folding via upper-then-lower mapping (exact for the characters whose fold orbit has two members)
+	return m.strEq(m.caseMap(m.caseMap(x, true), false), m.caseMap(m.caseMap(y, true), false))
+}
+
+// strings.Index: byte offset of the first occurrence (forks per candidate position)
+func sumIndex(fr *frame, a []value) value {
+	m := fr.m
+	c := m.ctx
+	s, sub := a[0].(Str), a[1].(Str)
+	m.needConcreteStr(s, "strings.Index")
+	m.needConcreteStr(sub, "strings.Index")
+	var off *Term = mkInt(64, 0)
+	for i := 0; i+len(sub.R) <= len(s.R); i++ {
+		if m.branch(m.strEq(Str{R: s.R[i : i+len(sub.R)]}, sub)) {
+			return off
+		}
+		off = c.Add(off, m.utf8Len(s.R[i]))
+	}
+	return mkInt(64, -1)
 }
